@@ -78,7 +78,7 @@ func micWrapper(c *Ctx, rule string, fn *ssa.Function, calc string, set bool, wa
 		pc := e.PathCond(r.Block(), nil)
 		okAtom := flow.Eq(flow.Extract(callT, 1), flow.Nil())
 		if !flow.Implies(pc, okAtom) {
-			c.Run.Bad(rule, rk+"/after-success", ipos(c, r), "a nil error is only returned when "+calc+" succeeded", "path condition "+short(pc.String()))
+			c.Run.Bad(rule, rk+"/after-success", ipos(c, r), "a nil error is only returned when "+calc+" succeeded", "path condition "+short(pc.Pretty()))
 			continue
 		}
 		if set {
@@ -283,7 +283,7 @@ func successStore(c *Ctx, rule string, fn *ssa.Function, enc flow.Site, field []
 		} else if got.IsUnknown() {
 			c.Run.Unknown(rule, rk, ipos(c, r), "macPL."+strings.Join(field, ".")+" holds the bytes returned by "+enc.Callee, short(got.String()))
 		} else {
-			c.Run.Bad(rule, rk, ipos(c, r), "macPL."+strings.Join(field, ".")+" holds the bytes returned by "+enc.Callee+" (or len == 0)", "at this nil-error return the field is "+short(got.String())+" under "+short(pc.String()))
+			c.Run.Bad(rule, rk, ipos(c, r), "macPL."+strings.Join(field, ".")+" holds the bytes returned by "+enc.Callee+" (or len == 0)", "at this nil-error return the field is "+short(got.String())+" under "+short(pc.Pretty()))
 		}
 	}
 	if n == 0 {
@@ -306,9 +306,9 @@ func decryptAfterEncrypt(c *Ctx, rule string, fn *ssa.Function, enc flow.Site) {
 		rk := fmt.Sprintf("%s/nil-return#%d", fnKey(fn), n)
 		pc := e.PathCond(r.Block(), nil)
 		if flow.Implies(pc, okAtom) {
-			c.Run.OK(rule, rk, ipos(c, r), "a nil error is returned only after "+enc.Callee+" succeeded", short(pc.String()), true)
+			c.Run.OK(rule, rk, ipos(c, r), "a nil error is returned only after "+enc.Callee+" succeeded", short(pc.Pretty()), true)
 		} else {
-			c.Run.Bad(rule, rk, ipos(c, r), "a nil error is returned only after "+enc.Callee+" succeeded", "this return can yield nil under "+short(pc.String())+": success is reported while the data was not transformed")
+			c.Run.Bad(rule, rk, ipos(c, r), "a nil error is returned only after "+enc.Callee+" succeeded", "this return can yield nil under "+short(pc.Pretty())+": success is reported while the data was not transformed")
 		}
 	}
 	if n == 0 {
